@@ -3,7 +3,7 @@
 import json, os, sys
 HERE = os.path.dirname(os.path.abspath(__file__))
 sys.path.insert(0, HERE)
-from props import PROPS
+from propcfg import PROPS
 VERIF = os.path.dirname(HERE)
 ids = [json.loads(l)["id"] for l in open(os.path.join(VERIF, "properties.jsonl"))]
 hooks_commits = []
